@@ -71,6 +71,10 @@ def apply_variant(sources: Dict[str, str], v: dict) -> Optional[Dict[str, str]]:
         from selftest.transforms import noop_module
 
         return {k: noop_module(t) for k, t in sources.items()}
+    if v.get("global") == "noelse":
+        from selftest.transforms import no_else_return_module
+
+        return {k: no_else_return_module(t) for k, t in sources.items()}
     if v.get("global") == "swap":
         from selftest.transforms import swap_module
 
@@ -184,6 +188,8 @@ def run_for(prop: str, seed: int = 0, jobs: int = 16) -> dict:
                      "note": "adjacent independent call-free assignments exchanged"})
     variants.append({"property": prop, "id": "%s-insert-noop-statements" % prop, "kind": "silent", "rule": None, "edits": [], "global": "noop",
                      "note": "`assert True` inserted at the start of every function body and every loop body"})
+    variants.append({"property": prop, "id": "%s-no-else-after-return" % prop, "kind": "silent", "rule": None, "edits": [], "global": "noelse",
+                     "note": "else blocks after a branch that ends in return / raise / continue / break are un-nested"})
     for par in ("even", "odd"):
         variants.append({"property": prop, "id": "%s-rename-locals-%s-functions" % (prop, par), "kind": "silent", "rule": None, "edits": [], "global": "rename-%s" % par,
                          "note": "function-local variables renamed in every other function only (one-sided for sibling implementations)"})
